@@ -16,6 +16,7 @@ import scipy.sparse as sp
 from rv import detmodel as D
 from rv import atoms as AT
 from rv import common as C
+from rv import contracts
 
 N_CASES = {'quick': 480, 'thorough': 8000}
 TIMEOUT = {'quick': 1500, 'thorough': 6 * 3600}
@@ -33,6 +34,10 @@ ASSUMPTIONS = ['ECOS\'s exponential-cone optimum is the exact reference',
                'solutions']
 
 XATOMS = ['exp', 'log', 'pexp', 'plog', 'entropy', 'softplus', 'expsum', 'logsum']
+
+
+def setup_worker(ctx):
+    contracts.install_helpers(ctx, ['vert_comb'])
 
 
 def gen_case(rng, idx, tier):
